@@ -10,6 +10,7 @@ def assert_repo_under_test():
     """Every check must exercise the working tree in /repo, never an installed copy."""
     import geneticengine
 
+    root = os.path.realpath(os.environ.get("VERIF_REPO") or "/repo")
     f = os.path.realpath(geneticengine.__file__)
-    if not f.startswith("/repo/"):
-        raise SystemExit(f"harness error: geneticengine imported from {f}, expected /repo")
+    if not f.startswith(root + "/"):
+        raise SystemExit(f"harness error: geneticengine imported from {f}, expected {root}")
